@@ -583,6 +583,7 @@ class World:
                     await self.block(body, m)
                 except BaseException as e:
                     body_exc = e
+                    gi.body_exc = e
                     raise
                 finally:
                     gi.body_done_cycle = self.cycle()
@@ -800,8 +801,12 @@ class World:
                     site["delivered_to_caller"] = e
                     if ci.started_called:
                         self.bad("c07:post-started-failure-routed-to-start", "", f"child {cname}")
-                    elif not group_cancelled_before:
-                        self.prestart_failures.append((gi, ci))
+                    elif not group_cancelled_before and gi.mirror.real.cancel_called \
+                            and gi.name not in self.harness_cancelled and getattr(gi, "body_exc", None) is None \
+                            and not any(c is not ci and c.ended is not None and c.ended[0] == "raise"
+                                        for c in gi.children.values()):
+                        self.bad("c07:group-cancelled-by-prestart-failure", "",
+                                 f"group {gi.name} was cancelled on account of child {cname}, which failed before started()")
                 else:
                     self.bad("c07:start-wrong-exception", type(e).__name__,
                              f"child {cname} ended {ci.ended}, start() raised {e!r}")
@@ -954,6 +959,11 @@ def run_program(case):
         w.finished = True
         for rec in w.pending_c02:
             w.check_group_exit_c02(*rec)
+        for ci in w.children.values():
+            if getattr(ci, "second_started", None) == "accepted" and ci.start_site is not None \
+                    and ci.start_site["outcome"] is not None and ci.start_site["outcome"][0] == "returned":
+                w.bad("c07:second-started-accepted", "", f"child {ci.name}: start() had returned, yet a second "
+                                                         f"task_status.started() call was accepted")
         for gi, ci in w.prestart_failures:
             # the group must not have been cancelled on account of a child that failed before started():
             # judged only when nothing else can have cancelled it
